@@ -123,7 +123,7 @@ func (o *c01) Nontrivial(x *hctx) bool {
 var c01Weights = map[string]int{
 	"create": 6, "openfile": 4, "write": 8, "writestring": 2, "sync": 1, "close": 8,
 	"mkdir": 6, "mkdirall": 3, "remove": 4, "removeall": 3, "rename": 7,
-	"chmod": 2, "chown": 2, "chtimes": 2, "reopen": 1, "symlink": 2,
+	"chmod": 2, "chown": 2, "chtimes": 2, "reopen": 1, "rebuild": 1, "symlink": 2,
 	"arch_archive": 3, "arch_update": 3, "arch_delete": 2, "arch_move": 2,
 }
 
